@@ -25,13 +25,17 @@ OutputKinds == {"types", "builders", "converters", "api_reference"}
 
 \* yaml keys of each jenny's Config that the property's quantifier names
 \* (json marshaller, strict unmarshaller, equal, validate, any_as_interface, skip_runtime, enums_as_union_types)
+\* "alt_paths" stands for the path / prefix options of a language set to NON-default values (Java package_path with several
+\* segments, Python path_prefix, TypeScript path_prefix + packages_import_map, PHP namespace_root with several segments): not
+\* named by the property, but output options all the same (audit class 11); Go's package_root always has several segments
 Flags(L) ==
   CASE L = "go"         -> {"generate_json_marshaller", "generate_strict_unmarshaller", "generate_equal",
                             "generate_validate", "any_as_interface", "skip_runtime"}
-    [] L = "python"     -> {"generate_json_marshaller", "skip_runtime"}
-    [] L = "java"       -> {"generate_json_marshaller", "skip_runtime"}
-    [] L = "typescript" -> {"skip_runtime", "enums_as_union_types"}
-    [] L = "php"        -> {"generate_json_marshaller"}
+    [] L = "python"     -> {"generate_json_marshaller", "skip_runtime", "alt_paths"}
+    [] L = "java"       -> {"generate_json_marshaller", "skip_runtime", "alt_paths"}
+    [] L = "typescript" -> {"skip_runtime", "enums_as_union_types", "alt_paths"}
+    [] L = "php"        -> {"generate_json_marshaller", "alt_paths"}
+    [] L \in SchemaLangs -> {"compact"}          \* not named by the property, but an output option of these two (audit class 11)
     [] OTHER            -> {}
 
 Configs(L) == [lang : {L}, out : SUBSET OutputKinds, on : SUBSET Flags(L)]
